@@ -6,7 +6,9 @@ from .common import Hooks, group_kind
 
 PROP = "C07"
 SHADOW = False
-CELLS_RULE = "distinct call histories (sequence of call symbols, per victim class) of length <= 4 prefix"
+CELLS_RULE = ("distinct call histories (sequence of call symbols, per victim class) of length <= 4 prefix; run indices "
+              "0..3329 walk all 3330 histories of length <= 3 systematically, so they are all present in every batch "
+              "of at least 3330 runs")
 EXPECT_PROBES = ["second-start-refused", "start-on-restored-refused", "second-finish-refused",
                  "finish-before-start-refused", "serialize-before-start-refused", "scalar-stable",
                  "finish-after-failed-finish", "start-after-failed-start"]
@@ -15,7 +17,44 @@ SYMS = ["start", "start_fail", "finish_valid", "finish_own_side", "finish_unknow
         "finish_undecodable", "finish_identity", "serialize", "restore"]
 
 
+def _systematic(idx):
+    """run indices 0..3329 walk ALL histories of length 1..3 over the 10 symbols for the three
+    classes (3 * (10 + 100 + 1000) = 3330), in a fixed order; returns (cls, [symbols]) or None"""
+    per = 10 + 100 + 1000
+    if idx >= 3 * per:
+        return None
+    cls = "ABS"[idx // per]
+    k = idx % per
+    if k < 10:
+        L, k = 1, k
+    elif k < 110:
+        L, k = 2, k - 10
+    else:
+        L, k = 3, k - 110
+    syms = []
+    for _ in range(L):
+        syms.append(SYMS[k % 10])
+        k //= 10
+    return cls, syms[::-1]
+
+
 def generate(rng, tier="quick"):
+    sysh = _systematic(getattr(rng, "idx", 1 << 30))
+    if sysh is not None:
+        cls, syms = sysh
+        pspec = gen.gen_pspec(rng, mix=[("small", 70), ("toyed", 20), ("i1024", 10)])
+        node = {"cls": cls, "pw": gen.gen_bytes(rng).hex(), "pset": 0,
+                "entropy": {"mode": "uniform", "seed": rng.randrange(1 << 40)}}
+        steps = [{"op": "boot", "n": 0}]
+        for sym in syms:
+            st = {"op": "call", "n": 0, "what": sym}
+            if sym == "finish_valid":
+                st["k"] = rng.randrange(2, 1000)
+            if sym in ("finish_unknown_side", "finish_undecodable"):
+                st["v"] = rng.choice([0x43, 0x00, 0xff, 0x61])
+            steps.append(st)
+        return {"property": PROP, "config": {"psets": [pspec], "nodes": [node]}, "steps": steps,
+                "intent": {"systematic": True}}
     pspec = gen.gen_pspec(rng, mix=[("ed25519", 8), ("i1024", 8), ("i2048", 2), ("i3072", 1),
                                     ("small", 55), ("medium", 6), ("toyed", 20)])
     cls = rng.choice(["A", "B", "S"])
@@ -136,6 +175,8 @@ class Oracle(Hooks):
                     if exc != "SerializedTooEarly":
                         self.flag(w, "serialize-wrong-error", "serialize() before start() raised %s, not SerializedTooEarly"
                                   % exc, exc=exc, **sig)
+        if w.scn.get("intent", {}).get("systematic") and len(self.hist) == len(w.scn["steps"]) - 1:
+            w.probe("systematic-history-len<=3")
         cells = getattr(w, "cells", None)
         if cells is None:
             w.cells = cells = set()
